@@ -23,6 +23,7 @@ type c15Plant struct {
 	Subs    int  `json:"substitutions"`
 	Indels  int  `json:"indels"`
 	NearMin bool `json:"near_minimum_length_not_required"`
+	Short   bool `json:"just_above_minimum_judged_in_aggregate"`
 }
 
 type c15Plan struct {
@@ -96,10 +97,18 @@ func init() {
 		Case:        c15Case,
 		MinDistinct: func(t string) int { return 150 },
 		Floors: func(string) map[string]int64 {
-			return map[string]int64{"pals_runs": 200, "hits_checked": 250, "planted_repeats": 250, "planted_reverse_strand": 80, "planted_recovered": 250, "self_comparison_runs": 30, "hits_with_errors": 60, "near_minimum_plants": 60}
+			return map[string]int64{"pals_runs": 200, "hits_checked": 250, "planted_repeats": 250, "planted_reverse_strand": 80, "planted_recovered": 250, "self_comparison_runs": 30, "hits_with_errors": 60, "near_minimum_plants": 60, "short_repeats_with_end_substitutions": 40}
 		},
-		Assumptions: []string{"planted copies do not overlap each other or (in self comparison) their source", "index memory is capped at 48 MB so that Optimise chooses a word size the sandbox can index",
-			"'comfortably above the threshold' is taken as an error rate of at most min(1-minId-0.04, 0.03); 'most of the planted copy' as 80%"},
+		Aggregate: func(tier string, c map[string]int64) []obs.Violation {
+			tried := c["short_repeats_recovered"] + c["short_repeats_missed"]
+			missed := c["short_repeats_missed"]
+			if missed >= 6 && missed*10 > tried {
+				return []obs.Violation{{Class: "short-repeat-recall", Brief: fmt.Sprintf("%d of %d planted repeats just above the minimum hit length (two substitutions a few bases inside the ends) were not recovered; on the pinned tree the rate is about 0.2%%", missed, tried)}}
+			}
+			return nil
+		},
+		Assumptions: []string{"repeats only 2..12 letters longer than the minimum hit length are not reliably recovered even by the unchanged pipeline (about 1 in 700 missed): they are judged as a population - a run is a violation when at least 6 and more than 10% of them are missed", "planted copies do not overlap each other or (in self comparison) their source", "index memory is capped at 48 MB so that Optimise chooses a word size the sandbox can index",
+			"'comfortably above the threshold' is taken as an error rate of at most min(1-minId-0.04, 0.03) (two substitutions for the short repeats just above the minimum length, where 1-minId-0.04 allows them); 'most of the planted copy' as 80%"},
 	})
 }
 
@@ -173,6 +182,43 @@ func c15Case(r *obs.Run, i int) {
 		usedT = append(usedT, iv{a0, a0 + L})
 		usedQ = append(usedQ, iv{b0, p.B1})
 		pl.Plants = append(pl.Plants, p)
+	}
+	// short repeats, just above the minimum hit length, whose only differences sit a few bases inside each end:
+	// the span of shared k-mers is then shorter than the minimum hit length although the repeat is not
+	if 1-pl.MinID-0.04 >= 2.0/float64(pl.MinHitLen) && rng.Intn(2) == 0 {
+		for try := 0; try < 50; try++ {
+			L := pl.MinHitLen + 2 + rng.Intn(11)
+			a0 := rng.Intn(pl.TLen - L)
+			b0 := rng.Intn(pl.QLen - L - 8)
+			ok := free(usedT, a0, a0+L) && free(usedQ, b0, b0+L)
+			if pl.Self {
+				ok = ok && free(usedT, b0, b0+L) && free(usedQ, a0, a0+L) && (b0 > a0+L+20 || a0 > b0+L+20)
+			}
+			if !ok {
+				continue
+			}
+			w := append([]byte(nil), T[a0:a0+L]...)
+			for _, pos := range []int{5 + rng.Intn(5), L - 6 - rng.Intn(5)} {
+				for {
+					c := "ACGT"[rng.Intn(4)]
+					if c != w[pos] {
+						w[pos] = c
+						break
+					}
+				}
+			}
+			p := c15Plant{A0: a0, A1: a0 + L, B0: b0, Reverse: rng.Intn(2) == 0, Subs: 2, Short: true}
+			if p.Reverse {
+				w = c15RevComp(w)
+			}
+			p.B1 = b0 + len(w)
+			copy(Q[b0:], w)
+			usedT = append(usedT, iv{a0, a0 + L})
+			usedQ = append(usedQ, iv{b0, p.B1})
+			pl.Plants = append(pl.Plants, p)
+			r.Count("short_repeats_with_end_substitutions", 1)
+			break
+		}
 	}
 	// near-minimum plants: the target copy is a few bases shorter than the minimum hit length, the query copy
 	// (the same letters with single-base insertions) reaches it. Such a pair need not be reported, but whatever
@@ -314,7 +360,9 @@ func c15Case(r *obs.Run, i int) {
 		if p.NearMin {
 			continue
 		}
-		r.Count("planted_repeats", 1)
+		if !p.Short {
+			r.Count("planted_repeats", 1)
+		}
 		strand := 0
 		b0, b1 := p.B0, p.B1
 		if p.Reverse {
@@ -355,11 +403,20 @@ func c15Case(r *obs.Run, i int) {
 				found = true
 			}
 		}
+		if !found && p.Short {
+			// repeats only just above the minimum length are judged as a population (see Aggregate)
+			r.Count("short_repeats_missed", 1)
+			continue
+		}
 		if !found {
 			w["hits_forward"] = fmt.Sprint(hits[0])
 			w["hits_complement"] = fmt.Sprint(hits[1])
 			fail("planted-repeat-missed", fmt.Sprintf("planted repeat %+v (length %d, %d substitutions, %d indels) is not covered to 80%% by any hit on its strand (best %.0f%%)", p, p.A1-p.A0, p.Subs, p.Indels, 100*best))
 			return
+		}
+		if p.Short {
+			r.Count("short_repeats_recovered", 1)
+			continue
 		}
 		r.Count("planted_recovered", 1)
 	}
